@@ -97,6 +97,15 @@ class VC:
         return self.path.ghost
 
 
+def _kw(args):
+    """contract methods receive the receiver of a method as `self_`"""
+    if isinstance(args, dict) and "self" in args:
+        a = dict(args)
+        a["self_"] = a.pop("self")
+        return a
+    return args
+
+
 class FunctionContract:
     target: str = ""
     prop: str = ""
@@ -140,6 +149,7 @@ class FunctionContract:
         path = ctx.PATH
         vc = VC(path, interp)
         caller = interp.frames[-1].func.fq if interp.frames else "<unit>"
+        bound = _kw(bound)
         req = self.requires(**bound)
         path.check(f"{caller} -> {self.target}::requires", req)
         for exc, cond in self.raises.items():
@@ -172,13 +182,15 @@ class FunctionContract:
             interp.assign_hooks = {(contract.target, k): v for k, v in getattr(contract, "hints", {}).items()}
             contract.configure(interp)
             f = interp.get_function(contract.target)
-            args = contract.setup(vc, case)
+            call_args = contract.setup(vc, case)
+            args = _kw(call_args)
             req = contract.requires(**args)
             path.assume(req)
             old = contract.snapshot(**args)
             pre = f"{contract.unit_name(case)}::"
+            interp.skip_modular_once = contract.target
             try:
-                result = interp.call(f, [], dict(args)) if not isinstance(args, (list, tuple)) else interp.call(f, list(args), {})
+                result = interp.call(f, [], dict(call_args))
             except PyRaise as e:
                 cond = contract.raises.get(e.exc_type)
                 if cond is None:
